@@ -8,7 +8,7 @@
         b_st b_lo b_hi b_cdflo b_cdfhi b_hafter
         nquad { a b integral cdf_a cdf_b }*
         m_st m_a m_b m_integral
-        unmodified sorted
+        unmodified sorted npre
 
      kernel     0 Epanechnikov, 1 Gaussian, 2 Delta                      (KDE.Kernel)
      hasw       1 when Sample.Weights is non-nil ([ws] is the empty list otherwise)
@@ -30,6 +30,9 @@
                 quadrature of the implementation's PDF over it (f)
      unmodified 1 when Sample.Xs / Sample.Weights are bit-for-bit what they were before
      sorted     1 when Sample.Sorted was set (only on ascending Xs): must not change any result
+     npre       number of earlier configurations the SAME KDE object went through (configured by
+                field assignment and evaluated) before it was re-configured as this one: must not
+                change any result (the only state is the lazily filled Bandwidth, which is h here)
 
    WHAT IS COMPARED
      Epanechnikov and delta kernels: PDF and CDF against the exact model (abs 1e-9 * peak kernel
@@ -63,7 +66,7 @@ Record cline := mkLine {
   l_kernel : Z; l_hasw : bool; l_xs : list Q; l_ws : list Q; l_h : Q; l_bmin : xreal; l_bmax : xreal;
   l_scst : Z; l_sc : xreal; l_sist : Z; l_si : xreal;
   l_pts : list pt; l_bnds : bnds; l_quads : list quad;
-  l_mst : Z; l_ma : xreal; l_mb : xreal; l_mint : xreal; l_unmod : Z; l_sorted : bool }.
+  l_mst : Z; l_ma : xreal; l_mb : xreal; l_mint : xreal; l_unmod : Z; l_sorted : bool; l_npre : Z }.
 
 Definition p_pt : parser pt :=
   do x <- pQ; do ps <- pZ; do pv <- pX; do cs <- pZ; do cv <- pX; do h <- pX; pret (mkPt x ps pv cs cv h).
@@ -78,8 +81,8 @@ Definition p_line : parser cline :=
   do h <- pQ; do bmin <- pX; do bmax <- pX;
   do scst <- pZ; do sc <- pX; do sist <- pZ; do si <- pX;
   do pts <- plist_any p_pt; do bn <- p_bnds; do qs <- plist_any p_quad;
-  do mst <- pZ; do ma <- pX; do mb <- pX; do mi <- pX; do unm <- pZ; do srt <- pbool;
-  pend (mkLine kern hasw xs ws h bmin bmax scst sc sist si pts bn qs mst ma mb mi unm srt).
+  do mst <- pZ; do ma <- pX; do mb <- pX; do mi <- pX; do unm <- pZ; do srt <- pbool; do npre <- pZ;
+  pend (mkLine kern hasw xs ws h bmin bmax scst sc sist si pts bn qs mst ma mb mi unm srt npre).
 
 (* ---------- tolerances ---------- *)
 Definition e9 : Q := 1 # 1000000000.
@@ -107,6 +110,7 @@ Definition T_EMPTY := 131072%Z.
 Definition T_BWRULE := 262144%Z. (* a bandwidth rule returned a value that was compared *)
 Definition T_BORDER := 524288%Z.
 Definition T_SORTED := 1048576%Z. (* Sample.Sorted set *)
+Definition T_HISTORY := 4194304%Z. (* the KDE object had other configurations before *)
 Definition T_OFFSET := 2097152%Z. (* bandwidth rule compared on data whose offset is >= 1e4 ranges *) (* delta kernel, inexact image arithmetic within rounding of a jump: either side accepted *)
 
 (* ---------- observable classes (first diagnostic integer of a mismatch) ---------- *)
@@ -356,7 +360,7 @@ Definition check_C12 (line : list Z) : list Z :=
       let nq12 := Qofnat (length (l_xs l)) in
       let b := bconf_of (l_bmin l) (l_bmax l) in
       let base := Z.lor (kern_tag kern) (Z.lor (conf_tag b) (Z.lor (if l_hasw l then T_WEIGHTED else 0)
-                    (Z.lor (if l_sorted l then T_SORTED else 0) (match l_xs l with [] => T_EMPTY | _ => 0 end))))%Z in
+                    (Z.lor (if l_sorted l then T_SORTED else 0) (Z.lor (if (0 <? l_npre l)%Z then T_HISTORY else 0) (match l_xs l with [] => T_EMPTY | _ => 0 end)))))%Z in
       (* 1. the bandwidth rules *)
       let sc := bandwidth_scott10 s in
       let si := bandwidth_silverman10 s in
